@@ -3,7 +3,7 @@
    result with what the implementation returned for the same inputs. No proofs here. *)
 From Coq Require Import ZArith List Bool String.
 From Strand Require Import Base.ZUtil Model.Outcome Model.Codec Model.Sha512 Model.Backend
-  Model.ZBackend Model.Zkp.
+  Model.ZBackend Model.Zkp Model.Wire Model.Rng.
 Import ListNotations.
 Open Scope list_scope.
 Open Scope Z_scope.
@@ -40,11 +40,28 @@ Definition mkP (p : Z) : Params := {| p_p := p; p_q := (p - 1) / 2; p_g := 4; p_
 
 Definition of_outZ (o : outcome Z) : val :=
   match o with Ok z => VZ z | Err => VErr | Panic => VPanic end.
+Definition of_outB (o : outcome bytes) : val :=
+  match o with Ok z => VB z | Err => VErr | Panic => VPanic end.
 Definition of_out (o : outcome val) : val :=
   match o with Ok v => v | Err => VErr | Panic => VPanic end.
+Definition omap {A} (f : A -> val) (o : outcome A) : val :=
+  match o with Ok a => f a | Err => VErr | Panic => VPanic end.
 
 Definition opis (op s : string) : bool := String.eqb op s.
 Arguments opis _ _%string.
+
+(* argument extraction *)
+Definition gZ (v : val) : option Z := match v with VZ z => Some z | _ => None end.
+Definition gB (v : val) : option bytes := match v with VB b => Some b | _ => None end.
+Fixpoint gZs (l : list val) : option (list Z) :=
+  match l with
+  | [] => Some []
+  | VZ z :: r => match gZs r with Some zs => Some (z :: zs) | None => None end
+  | _ => None
+  end.
+Definition gLZ (v : val) : option (list Z) := match v with VL l => gZs l | _ => None end.
+Definition gOptZ (v : val) : option (option Z) :=
+  match v with VNone => Some None | VZ z => Some (Some z) | _ => None end.
 
 Section Exec.
   Variable K : Kernel.
@@ -56,126 +73,191 @@ Section Exec.
   Definition v_schnorr (s : schnorr B) : val := VL [VZ (s_com B s); VZ (s_chal B s); VZ (s_resp B s)].
   Definition v_cp (s : cproof B) : val :=
     VL [VZ (c_com1 B s); VZ (c_com2 B s); VZ (c_chal B s); VZ (c_resp B s)].
-  Definition optE (v : val) : option (option Z) :=
-    match v with VNone => Some None | VZ z => Some (Some z) | _ => None end.
+  Definition v_Zs (l : list Z) : val := VL (map VZ l).
 
-  Definition exec (op : string) (args : list val) : val :=
+  Definition g_ct (v : val) : option (ctext B) :=
+    match v with VL [VZ a; VZ b] => Some (Build_ctext B a b) | _ => None end.
+  Definition g_schnorr (v : val) : option (schnorr B) :=
+    match v with VL [VZ a; VZ b; VZ c] => Some (Build_schnorr B a b c) | _ => None end.
+  Definition g_cp (v : val) : option (cproof B) :=
+    match v with VL [VZ a; VZ b; VZ c; VZ d] => Some (Build_cproof B a b c d) | _ => None end.
+  Fixpoint g_cts (l : list val) : option (list (ctext B)) :=
+    match l with
+    | [] => Some []
+    | v :: r => match g_ct v, g_cts r with Some c, Some cs => Some (c :: cs) | _, _ => None end
+    end.
+  Definition g_Lct (v : val) : option (list (ctext B)) := match v with VL l => g_cts l | _ => None end.
+
+  (* ---------- arithmetic ---------- *)
+  Definition exec_arith (op : string) (args : list val) : option val :=
     match args with
     | [] =>
-        if opis op "gen" then VZ (b_gen B) else
-        if opis op "one" then VZ (b_one B) else
-        if opis op "xzero" then VZ 0 else if opis op "xone" then VZ 1 else VBad
+        if opis op "gen" then Some (VZ (b_gen B)) else
+        if opis op "one" then Some (VZ (b_one B)) else
+        if opis op "xzero" then Some (VZ 0) else if opis op "xone" then Some (VZ 1) else None
     | [VZ a] =>
-        if opis op "emodp" then VZ (b_modp B a) else
-        if opis op "cmodulo" then VZ (b_modp B a) else
-        if opis op "einvp" then of_outZ (b_invp B a) else
-        if opis op "gpow" then VZ (b_gpow B a) else
-        if opis op "xmodq" then VZ (b_xmodq B a) else
-        if opis op "cexpmodulo" then VZ (b_xmodq B a) else
-        if opis op "xinvq" then of_outZ (b_xinvq B a) else
-        if opis op "xfrom_u64" then VZ (b_from_u64 B a) else
-        if opis op "encode" then of_outZ (encode K P a) else
-        if opis op "decode" then of_outZ (decode P a) else
-        if opis op "pk_of_sk" then VZ (pk_of_sk B a) else
-        if opis op "ser_e" then VB (b_ser_e B a) else
-        if opis op "ser_x" then VB (b_ser_x B a) else
-        VBad
+        if opis op "emodp" then Some (VZ (b_modp B a)) else
+        if opis op "cmodulo" then Some (VZ (b_modp B a)) else
+        if opis op "einvp" then Some (of_outZ (b_invp B a)) else
+        if opis op "gpow" then Some (VZ (b_gpow B a)) else
+        if opis op "xmodq" then Some (VZ (b_xmodq B a)) else
+        if opis op "cexpmodulo" then Some (VZ (b_xmodq B a)) else
+        if opis op "xinvq" then Some (of_outZ (b_xinvq B a)) else
+        if opis op "xfrom_u64" then Some (VZ (b_from_u64 B a)) else
+        if opis op "encode" then Some (of_outZ (encode K P a)) else
+        if opis op "decode" then Some (of_outZ (decode P a)) else
+        if opis op "pk_of_sk" then Some (VZ (pk_of_sk B a)) else
+        None
     | [VB b] =>
-        if opis op "hash_to_exp" then VZ (b_hash_to_exp B b) else
-        if opis op "e_from_bytes" then of_outZ (element_from_bytes K fl P b) else
-        if opis op "x_from_bytes" then of_outZ (exp_from_bytes fl P b) else
-        VBad
+        if opis op "hash_to_exp" then Some (VZ (b_hash_to_exp B b)) else
+        if opis op "e_from_bytes" then Some (of_outZ (element_from_bytes K fl P b)) else
+        if opis op "x_from_bytes" then Some (of_outZ (exp_from_bytes fl P b)) else
+        None
     | [VZ a; VZ b] =>
-        if opis op "emul" then VZ (b_mul B a b) else
-        if opis op "emulp" then VZ (b_mulp B a b) else
-        if opis op "edivp" then of_outZ (b_divp B a b) else
-        if opis op "epow" then VZ (b_pow B a b) else
-        if opis op "eeq" then VBool (b_eqb B a b) else
-        if opis op "xadd" then VZ (b_xadd B a b) else
-        if opis op "xsub" then of_outZ (b_xsub B a b) else
-        if opis op "xmul" then VZ (b_xmul B a b) else
-        if opis op "xdivq" then of_outZ (b_xdivq B a b) else
-        if opis op "xsubmod" then of_outZ (b_sub_mod B a b) else
-        VBad
+        if opis op "emul" then Some (VZ (b_mul B a b)) else
+        if opis op "emulp" then Some (VZ (b_mulp B a b)) else
+        if opis op "edivp" then Some (of_outZ (b_divp B a b)) else
+        if opis op "epow" then Some (VZ (b_pow B a b)) else
+        if opis op "eeq" then Some (VBool (b_eqb B a b)) else
+        if opis op "xadd" then Some (VZ (b_xadd B a b)) else
+        if opis op "xsub" then Some (of_outZ (b_xsub B a b)) else
+        if opis op "xmul" then Some (VZ (b_xmul B a b)) else
+        if opis op "xdivq" then Some (of_outZ (b_xdivq B a b)) else
+        if opis op "xsubmod" then Some (of_outZ (b_sub_mod B a b)) else
+        None
+    | _ => None
+    end.
+
+  (* ---------- wire formats ---------- *)
+  Definition exec_wire (op : string) (args : list val) : option val :=
+    match args with
+    | [VZ a] =>
+        if opis op "ser_e" then Some (VB (wr_E fl a)) else
+        if opis op "ser_x" then Some (VB (wr_X fl a)) else
+        if opis op "ser_p" then Some (VB (wr_P fl a)) else
+        if opis op "ser_pk" then Some (VB (wr_pk fl a)) else
+        if opis op "ser_sk" then Some (VB (wr_sk fl a (pk_of_sk B a))) else
+        None
+    | [VB b] =>
+        if opis op "de_e" then Some (of_outZ (de_E K fl P b)) else
+        if opis op "de_x" then Some (of_outZ (de_X fl P b)) else
+        if opis op "de_p" then Some (of_outZ (de_P fl b)) else
+        if opis op "de_pk" then Some (of_outZ (de_pk K fl P b)) else
+        if opis op "de_sk" then
+          Some (omap (fun ve => VL [VB (wr_sk fl (fst ve) (snd ve)); VZ (snd ve)]) (de_sk K fl P b)) else
+        if opis op "de_c" then Some (omap v_ct (de_ct K fl P b)) else
+        if opis op "de_schnorr" then Some (omap v_schnorr (de_schnorr K fl P b)) else
+        if opis op "de_cp" then Some (omap v_cp (de_cp K fl P b)) else
+        if opis op "de_vec_e" then Some (omap v_Zs (strict (rd_vecE K fl P) b)) else
+        if opis op "de_vec_x" then Some (omap v_Zs (strict (rd_vecX fl P) b)) else
+        if opis op "de_vec_p" then Some (omap v_Zs (strict (rd_vecP fl) b)) else
+        if opis op "de_vec_c" then Some (omap (fun l => VL (map v_ct l)) (strict (rd_vecC K fl P) b)) else
+        if opis op "de_vec_cp" then Some (omap (fun l => VL (map v_cp l)) (strict (rd_vecCP K fl P) b)) else
+        if opis op "de_proof" then Some (omap (fun p => VB (wr_proof fl p)) (de_proof K fl P b)) else
+        None
+    | [VL l] =>
+        if opis op "ser_c" then match g_ct (VL l) with Some c => Some (VB (wr_ct K fl P c)) | None => None end else
+        if opis op "ser_schnorr" then match g_schnorr (VL l) with Some s => Some (VB (wr_schnorr K fl P s)) | None => None end else
+        if opis op "ser_cp" then match g_cp (VL l) with Some s => Some (VB (wr_cp K fl P s)) | None => None end else
+        if opis op "ser_vec_e" then match gZs l with Some zs => Some (VB (wr_vecE fl zs)) | None => None end else
+        if opis op "ser_vec_x" then match gZs l with Some zs => Some (VB (wr_vecX fl zs)) | None => None end else
+        if opis op "ser_vec_p" then match gZs l with Some zs => Some (VB (wr_vecP fl zs)) | None => None end else
+        if opis op "ser_vec_c" then match g_cts l with Some cs => Some (VB (wr_vecC K fl P cs)) | None => None end else
+        None
+    | [VZ x; VZ pk; VZ r] =>
+        if opis op "encrypt_exp_r" then Some (of_outB (encrypt_exp K fl P x pk r)) else None
+    | [VB b; VZ sk] =>
+        if opis op "decrypt_exp" then Some (of_outZ (decrypt_exp K fl P b sk)) else None
+    | _ => None
+    end.
+
+  (* ---------- ElGamal and sigma proofs ---------- *)
+  Definition exec_proto (op : string) (args : list val) : option val :=
+    match args with
     | [VZ pk; VZ m; VZ r] =>
-        if opis op "encrypt_r" then v_ct (encrypt_with_randomness B pk m r) else
-        if opis op "encrypt_exponential_r" then v_ct (encrypt_exponential B pk m r) else
-        VBad
+        if opis op "encrypt_r" then Some (v_ct (encrypt_with_randomness B pk m r)) else
+        if opis op "encrypt_exponential_r" then Some (v_ct (encrypt_exponential B pk m r)) else
+        None
     | [VZ sk; VL [VZ c1; VZ c2]] =>
         let c := Build_ctext B c1 c2 in
-        if opis op "decrypt" then of_outZ (decrypt B sk c) else
-        if opis op "decryption_factor" then VZ (decryption_factor B sk c) else
-        VBad
+        if opis op "decrypt" then Some (of_outZ (decrypt B sk c)) else
+        if opis op "decryption_factor" then Some (VZ (decryption_factor B sk c)) else
+        None
     | [VZ pk; VZ m; VB label; VZ r; VZ nonce] =>
         if opis op "encrypt_and_pok_r" then
-          let '(c, pf) := encrypt_and_pok B pk m label r nonce in VL [v_ct c; v_schnorr pf]
-        else VBad
+          let '(c, pf) := encrypt_and_pok B pk m label r nonce in Some (VL [v_ct c; v_schnorr pf])
+        else None
     | [VZ sk; VL [VZ c1; VZ c2]; VB label; VZ r] =>
         let c := Build_ctext B c1 c2 in
         if opis op "decrypt_and_prove_r" then
-          match decrypt_and_prove B sk (pk_of_sk B sk) c label r with
-          | Ok (d, pf) => VL [VZ d; v_cp pf] | Err => VErr | Panic => VPanic end
-        else VBad
+          Some (omap (fun dp => VL [VZ (fst dp); v_cp (snd dp)]) (decrypt_and_prove B sk (pk_of_sk B sk) c label r))
+        else None
     | [VZ secret; VZ pub; g; VB label; VZ r] =>
-        match optE g with
+        match gOptZ g with
         | Some g' =>
-            if opis op "schnorr_prove_r" then v_schnorr (schnorr_prove B secret pub g' label r) else
+            if opis op "schnorr_prove_r" then Some (v_schnorr (schnorr_prove B secret pub g' label r)) else
             if opis op "popk_r" then
-              match g' with Some g_r => v_schnorr (encryption_popk B secret pub g_r label r) | None => VBad end
-            else VBad
-        | None => VBad
+              (* args: secret mhr gr label r *)
+              match g' with Some g_r => Some (v_schnorr (encryption_popk B secret pub g_r label r)) | None => None end
+            else None
+        | None => None
         end
     | [VZ pub; g; VL [VZ com; VZ ch; VZ rs]; VB label] =>
         let pf := Build_schnorr B com ch rs in
-        match optE g with
+        match gOptZ g with
         | Some g' =>
-            if opis op "schnorr_verify" then VBool (schnorr_verify B pub g' pf label) else
+            if opis op "schnorr_verify" then Some (VBool (schnorr_verify B pub g' pf label)) else
             if opis op "popk_verify" then
-              match g' with Some g_r => VBool (encryption_popk_verify B pub g_r pf label) | None => VBad end
-            else VBad
-        | None => VBad
+              (* args: mhr gr proof label *)
+              match g' with Some g_r => Some (VBool (encryption_popk_verify B pub g_r pf label)) | None => None end
+            else None
+        | None => None
         end
     | [VZ secret; VZ pub1; VZ pub2; g1; VZ g2; VB label; VZ r] =>
-        match optE g1 with
+        match gOptZ g1 with
         | Some g1' =>
-            if opis op "cp_prove_r" then v_cp (cp_prove B secret pub1 pub2 g1' g2 label r) else
+            if opis op "cp_prove_r" then Some (v_cp (cp_prove B secret pub1 pub2 g1' g2 label r)) else
             if opis op "dec_proof_r" then
-              (* args: secret pk dec_factor mhr gr label r  (g1 slot carries mhr) *)
+              (* args: secret pk dec_factor mhr gr label r *)
               match g1' with
-              | Some m => v_cp (decryption_proof B secret pub1 pub2 m g2 label r)
-              | None => VBad end
-            else VBad
-        | None => VBad
+              | Some m => Some (v_cp (decryption_proof B secret pub1 pub2 m g2 label r))
+              | None => None end
+            else None
+        | None => None
         end
     | [VZ pub1; VZ pub2; g1; VZ g2; VL [VZ k1; VZ k2; VZ ch; VZ rs]; VB label] =>
         let pf := Build_cproof B k1 k2 ch rs in
-        match optE g1 with
+        match gOptZ g1 with
         | Some g1' =>
-            if opis op "cp_verify" then VBool (cp_verify B pub1 pub2 g1' g2 pf label) else
+            if opis op "cp_verify" then Some (VBool (cp_verify B pub1 pub2 g1' g2 pf label)) else
             if opis op "verify_decryption" then
+              (* args: pk dec_factor mhr gr proof label *)
               match g1' with
-              | Some m => VBool (verify_decryption B pub1 pub2 m g2 pf label)
-              | None => VBad end
-            else VBad
-        | None => VBad
+              | Some m => Some (VBool (verify_decryption B pub1 pub2 m g2 pf label))
+              | None => None end
+            else None
+        | None => None
         end
-    | _ => VBad
+    | _ => None
+    end.
+
+  (* ---------- samplers (num-bigint backend; malachite's sampler is an opaque dependency) ---------- *)
+  Definition consumed (s rest : bytes) : val := VZ (Z.of_nat (List.length s) - Z.of_nat (List.length rest)).
+  Definition exec_rng (op : string) (args : list val) : option val :=
+    match args with
+    | [VB s] =>
+        match fl with
+        | Bigint =>
+            if opis op "rnd_exp" then Some (omap (fun xr => VL [VZ (fst xr); consumed s (snd xr)]) (rnd_exp_bigint P s)) else
+            if opis op "rnd_plaintext" then Some (omap (fun xr => VL [VZ (fst xr); consumed s (snd xr)]) (rnd_plaintext_bigint P s)) else
+            if opis op "rnd" then Some (omap (fun xr => VL [VZ (fst xr); consumed s (snd xr)]) (rnd_bigint K P s)) else
+            None
+        | Malachite => None
+        end
+    | [VZ n; VB s] =>
+        if opis op "gen_permutation" then
+          Some (omap (fun pr => VL [v_Zs (fst pr); consumed s (snd pr)]) (gen_permutation (Z.to_nat n) s))
+        else None
+    | _ => None
     end.
 End Exec.
-
-(* a correspondence case: flavor, parameters, operation, arguments, what the implementation returned *)
-Definition case := (Kernel * flavor * Params * string * list val * val)%type.
-
-Definition run_case (c : case) : val :=
-  let '(K, fl, P, op, args, _) := c in exec K fl P op args.
-
-Fixpoint mismatches_from (i : Z) (cs : list case) : list (Z * val) :=
-  match cs with
-  | [] => []
-  | c :: r =>
-      let m := run_case c in
-      let '(_, _, _, _, _, expected) := c in
-      if val_eqb m expected then mismatches_from (i + 1) r
-      else (i, m) :: mismatches_from (i + 1) r
-  end.
-Definition mismatches (cs : list case) := mismatches_from 0 cs.
